@@ -349,6 +349,19 @@ impl CustomRoller {
   }
 }
 
+/// Verification hook (only with `--cfg excsn_fibre_verif`): exposes the roller with an
+/// injectable clock so checks can drive size- and time-triggered rolls deterministically.
+#[cfg(excsn_fibre_verif)]
+impl CustomRoller {
+  pub fn verif_new_at_time(policy: RollingPolicyInternal, now: DateTime<Utc>) -> Result<Self> {
+    Self::new_at_time(policy, now, None)
+  }
+
+  pub fn verif_write_at_time(&mut self, buf: &[u8], now: DateTime<Utc>) -> std::io::Result<usize> {
+    self.write_internal(buf, now)
+  }
+}
+
 fn parse_datetime_from_str(s: &str) -> Option<NaiveDateTime> {
   // First, try to parse the full datetime format e.g., "2023-01-01_10-30-15"
   if let Ok(dt) = NaiveDateTime::parse_from_str(s, "%Y-%m-%d_%H-%M-%S") {
